@@ -1857,13 +1857,31 @@ func ruleB22(c *Ctx, id string) {
 	V, P, R := c.V, c.P, c.R
 	R.Rule(id, "RENAME replaces an object only by one of the same kind: every unlink (doDecLink) in RENAME's code is dominated by the edge 'kind of one inode == kind of another'", 1)
 	rn := c.fn(id, "nfs.(*Nfs).NFSPROC3_RENAME")
-	dl := c.fn(id, "nfs.(*Nfs).doDecLink")
-	if rn == nil || dl == nil {
+	if rn == nil || V.DecLink == nil {
 		return
+	}
+	// the unlink: inode.DecLink itself, or a function of package nfs through which it is reached (doDecLink)
+	reachMemo := map[*ssa.Function]bool{}
+	isUnlink := func(f *ssa.Function) bool {
+		if f == V.DecLink {
+			return true
+		}
+		if f == nil || !IsRepoFunc(f) || relPkg(f) != "nfs" || f == rn {
+			return false
+		}
+		if v, ok := reachMemo[f]; ok {
+			return v
+		}
+		r := P.Reach([]*ssa.Function{f}, func(g *ssa.Function) bool { return !IsRepoFunc(g) })[V.DecLink]
+		reachMemo[f] = r
+		return r
 	}
 	n := 0
 	for _, sc := range scopesOf(rn) {
-		for _, ci := range P.CallsIn(sc.Fn, funcIs(dl)) {
+		if sc.Fn != rn && isUnlink(sc.Fn) {
+			continue // the unlink helper's own body: judged at its call
+		}
+		for _, ci := range P.CallsIn(sc.Fn, isUnlink) {
 			n++
 			R.Analysed[FuncName(sc.Fn)] = true
 			g := guardedBy(sc.Fn, ci.Block(), func(cd Cond) (bool, bool) {
@@ -1886,5 +1904,5 @@ func ruleB22(c *Ctx, id string) {
 			R.Check(g, id, fmt.Sprintf("NFSPROC3_RENAME|replaced object has the kind of the renamed one#%d", n), P.Pos(ci.Pos()), "the unlink of the replaced object lies on the side where the two kinds are equal", "kinds compared, equal side", "an object can be replaced by one of another kind (the comparison covers one direction only, or is gone): RENAME of a directory onto a regular file succeeds, the file is freed")
 		}
 	}
-	R.Check(n > 0, id, "NFSPROC3_RENAME|unlinks what it replaces", P.Pos(rn.Pos()), "RENAME unlinks a replaced target", fmt.Sprintf("%d sites", n), "no doDecLink in RENAME's code")
+	R.Check(n > 0, id, "NFSPROC3_RENAME|unlinks what it replaces", P.Pos(rn.Pos()), "RENAME unlinks a replaced target", fmt.Sprintf("%d sites", n), "no call that reaches inode.DecLink in RENAME's code")
 }
